@@ -247,6 +247,27 @@ TRACE = {
  "C17": ("TLC trace validation: random access histories of every vector type against the actions of Access.tla (Trace_C17)",
          "Each logged constructor / write / read over random bit patterns is one action of the register machine with its arguments bound; the logged observation must be the register the action leaves."),
 }
+# later additions (appended to the entries above, or new entries)
+MORE = {
+ "C01": ("the fold machine MC_Fold (Sum / Product over 0..3 items incl. the empty iterator) replayed on the float vectors", ""),
+ "C03": ("MC_Fold on the matrix types; negation judged with the sign of zero; inverse also on operands scaled by exact powers of two; Mat3A lattice columns with poisoned hidden lanes", ""),
+ "C04": ("MC_Fold on Quat / DQuat; normalize relation on arbitrary and nearly-unit quaternions (Trace_Rel); Vec3A operands with poisoned hidden lanes", ""),
+ "C06": ("MC_Fold on matrices and affine transforms (order of iterated products); Affine2 <-> Mat3A products; transform_vector with a non-finite translation", ""),
+ "C07": ("the slerp relations (slerp8, slerp_int) validated per backend, the conversion machine of C14 and the entry-wise matrix record in every backend", ""),
+ "C09": ("every constructor also compared with (cos, sin) of the angle actually passed (f64 evaluation) at 4 eps, angles of up to 125 turns", ""),
+ "C10": ("off-grid cases (angles off the 45-degree grid, scales away from the powers of two) judged by round trip and mutual agreement to 8..64 eps; translations up to 2^121 / 2^1017 times larger than the linear part", ""),
+ "C12": ("slerp extrapolated to integer factors with a tolerance from the exact conditioning k U_{k-1}(D) (Chebyshev second kind), vector slerp incl. exactly opposite operands, rotate_towards length, clamp_length, orthonormal companions, rotation arcs incl. opposite vectors unit to a few ulp", ""),
+ "C13": ("MC_Fold on the integer vectors; placed-extremes patterns for the two-vector reductions", ""),
+ "C15": ("TLC trace validation of random mask histories against the actions of MC_C15 (Trace_C15), observations incl. the lanes as seen by select", "Random histories (constructors, !, six binary operator forms with operand masks from every producer, set, out-of-range test/set) of BVec2/3/4 and BVec3A/4A are validated as actions MaskCtor / MaskNot / MaskBin / MaskSet of the mask machine."),
+ "C16": ("TLC trace validation of random swizzle histories (Trace_C16: getters written back, setters incl. value-equal twins) on the index maps of Swizzle.tla", "Random histories of getters (written back when they have the register's length) and with_ setters are validated event by event on SwzGet / SwzWith with the documented result type."),
+ "C18": ("slices also at element offset 1 of their allocation; the access machine of C17 and the mask machine under the C18 builds (AddressSanitizer included)", ""),
+ "C20": ("the extrapolating-slerp postcondition (Trace_Rel slerp_int) with and without assertions; a release build with glam-assert", ""),
+}
+for _pid, (_t, _x) in MORE.items():
+    if _pid in TRACE:
+        TRACE[_pid] = (TRACE[_pid][0] + "; " + _t, TRACE[_pid][1] + (" " + _x if _x else ""))
+    else:
+        TRACE[_pid] = (_t, _x)
 for _pid, (_t, _x) in TRACE.items():
     CHECKS[_pid]["technique"] = CHECKS[_pid]["technique"] + "; plus " + _t
     if _x:
